@@ -280,6 +280,8 @@ pub struct FwdSession {
     facts: rust_rule_engine::Facts,
     n: usize,
     max_cycles: usize,
+    /// the parsed rules as first added (for remove / re-add between calls)
+    parsed: Vec<rust_rule_engine::Rule>,
 }
 
 impl FwdSession {
@@ -305,6 +307,7 @@ impl FwdSession {
             return Err(format!("parsed {} rules, wrote {}", parsed.len(), rules.len()));
         }
         let kb = KnowledgeBase::new("verif");
+        let kept = parsed.clone();
         for r in parsed {
             kb.add_rule(r).map_err(|e| format!("add_rule: {}", e))?;
         }
@@ -323,7 +326,18 @@ impl FwdSession {
             TRACE_SINK.with(|t| t.borrow_mut().push((format!("{}\u{1f}{}", p, name), after)));
             Ok(())
         });
-        Ok(FwdSession { engine, facts: store.to_facts(), n: rules.len(), max_cycles })
+        Ok(FwdSession { engine, facts: store.to_facts(), n: rules.len(), max_cycles, parsed: kept })
+    }
+
+    /// `knowledge_base().remove_rule(name)` between two calls; true when the rule was there
+    pub fn remove_rule(&mut self, name: &str) -> bool {
+        matches!(pan::catch(|| self.engine.knowledge_base().remove_rule(name)), Ok(Ok(true)))
+    }
+
+    /// add the rule of that name again, as first parsed (it comes back enabled)
+    pub fn add_rule_again(&mut self, name: &str) -> bool {
+        let Some(r) = self.parsed.iter().find(|r| r.name == name).cloned() else { return false };
+        matches!(pan::catch(|| self.engine.knowledge_base().add_rule(r)), Ok(Ok(_)))
     }
 
     pub fn current_store(&self) -> Result<Store, String> {
